@@ -17,10 +17,18 @@ import (
 )
 
 const (
-	repoDir  = "/repo"
 	verifDir = "/verif"
 	modPath  = "github.com/reedom/convergen"
 )
+
+// repoDir is /repo; tools/seed_eval.sh points it at a scratch worktree (VERIF_REPO) so that seeded
+// changes can be evaluated without touching /repo itself. Registered checks never set it.
+var repoDir = func() string {
+	if d := os.Getenv("VERIF_REPO"); d != "" {
+		return d
+	}
+	return "/repo"
+}()
 
 func init() {
 	// hard wall-clock guard: a hung run must not look like success
@@ -315,7 +323,7 @@ func cmdCheck(prop, tier string) int {
 			cs := strings.TrimPrefix(sp.Name, "G:")
 			if why, bad := w.caseFail[cs]; bad {
 				// the tool's output for a well-formed corpus case is unusable: a violation by itself
-				dir := filepath.Join(verifDir, "replay", prop, "corpus-"+cs)
+				dir := filepath.Join(replayRoot(), prop, "corpus-"+cs)
 				os.RemoveAll(dir)
 				copyTree(filepath.Join(w.dir, "failed_"+cs), dir)
 				os.WriteFile(filepath.Join(dir, "observed.txt"), []byte(why+"\n\n"+w.toolLog[cs]), 0644)
@@ -558,9 +566,13 @@ func writeEvidence(prop, tier string, specs []*HarnessSpec, results []*sym.Harne
 		"wall_s":      wall.Seconds(),
 		"violations":  nviol,
 	}
-	os.MkdirAll(filepath.Join(verifDir, "evidence"), 0755)
+	evDir := filepath.Join(verifDir, "evidence")
+	if d := os.Getenv("VERIF_EVIDENCE_DIR"); d != "" {
+		evDir = d // tools/seed_eval.sh only: runs on a changed tree must not overwrite the evidence
+	}
+	os.MkdirAll(evDir, 0755)
 	b, _ := json.MarshalIndent(ev, "", " ")
-	os.WriteFile(filepath.Join(verifDir, "evidence", prop+".json"), b, 0644)
+	os.WriteFile(filepath.Join(evDir, prop+".json"), b, 0644)
 }
 
 func keys(m map[string]bool) []string {
